@@ -13,9 +13,21 @@ B. Engine C: 2 threads x 1-3 operations on one lysosome under the controlled sch
    (every source line of lysosome.py is a scheduling point, deadlock = detected state).
 
 Observation points for conservation: the harness digesters and `on_toxic` (who was processed, with
-which result, on which library path), the captured module logger, every returned DigestResult,
+which result, during which public call), the captured module logger, every returned DigestResult,
 autophagy's return value, `get_statistics()` / `get_queue_status()` / `get_recycled()`, and the
 queue contents (anchor `_queue`) for the identity of what is still queued.
+
+Dimensions besides (max_queue_size, auto_digest_threshold, retention): `silent` (console output is
+swallowed by a module-level `print`), the digester registry (`custom`: harness digesters for all four
+non-sensitive types + on_toxic in the constructor; `partial`: harness digesters for two types only, the
+others fall back to the built-in ones, on_toxic assigned after construction; `builtin`: no digesters,
+no on_toxic), retention 0, digester answers (dict / {} / None / 0 / a non-dict / raising with and
+without a message, several exception classes / re-entering the lysosome), on_toxic answers, a second
+instance in the same process (`decoy`) and `clear_recycling_bin`.
+
+Which "path" an item was processed on (digest / auto-digest / emergency) is derived from the public
+call under judgement (its kind, and for an ingest whether the queue was at capacity), never from the
+implementation's call stack or state.
 """
 from __future__ import annotations
 
@@ -38,6 +50,19 @@ TOXIC = "TOXIC_BYPRODUCT"
 INGEST_KINDS = ("ingest", "ingest_error", "ingest_sensitive", "daemon_prune")
 _BOOM = re.compile(r"boom#(\d+)#")
 _CTX = re.compile(r"id=(\d+) beh=(\w+)")
+MODES = ("custom", "partial", "builtin")
+CUSTOM_TYPES = {"custom": NONTOXIC, "partial": ("FAILED_OPERATION", "ORPHANED_RESOURCE"), "builtin": ()}
+# A digester that re-enters the lysosome while the queue is at capacity recurses through _emergency_digest on the
+# pinned tree (the oldest half is still queued while its digesters run). Re-entering digesters are outside the
+# property's quantifier ("digesters that raise"); they are explored where the capacity path is unreachable
+# (auto_digest_threshold <= max_queue_size). Flip this once the emergency path pops before it digests.
+REENTER_AT_CAPACITY = False
+
+# what a harness digester answers, by behaviour tag
+RETURNS = {"recycle": lambda i: {f"r{i}": i}, "empty": lambda i: {}, "none": lambda i: None, "zero": lambda i: 0,
+           "odd": lambda i: [i], "ok": lambda i: {"leak": f"SECRET{i}"}}
+RAISES = {"raise": lambda i: RuntimeError(f"boom#{i}#"), "raise_empty": lambda i: ValueError(),
+          "raise_stop": lambda i: StopIteration(), "raise_key": lambda i: KeyError("")}
 
 
 # ---- owning time and the logger ---------------------------------------------------------------
@@ -62,6 +87,10 @@ class _Capture(logging.Handler):
             _Capture.sink.append(record.getMessage())
 
 
+def _quiet_print(*a, **kw):
+    pass
+
+
 _SETUP = False
 
 
@@ -73,6 +102,9 @@ def _setup():
     vclock.install_global([lyso, apd])
     lyso.Waste = _vwaste
     apd.Waste = _vwaste
+    # silent=False: the library prints; a module-level `print` keeps the check quiet (the messages are still built)
+    lyso.print = _quiet_print
+    apd.print = _quiet_print
     lg = logging.getLogger(lyso.__name__)
     lg.addHandler(_Capture())
     lg.setLevel(logging.DEBUG)
@@ -96,62 +128,81 @@ def ident(w):
     raise common.HarnessError(f"unidentifiable waste item {w!r}")
 
 
-def _path():
-    """Which library mechanism is processing an item right now (from the call stack)."""
-    names = set()
-    f = sys._getframe(2)
-    while f is not None:
-        if f.f_code.co_filename == LYSO_FILE:
-            names.add(f.f_code.co_name)
-        f = f.f_back
-    if "_emergency_digest" in names:
-        return "emergency"
-    if "_auto_digest" in names or names & {"ingest", "ingest_error", "ingest_sensitive"}:
-        return "auto-digest"
-    if "digest" in names:
-        return "digest"
-    return "other"
-
-
 class Box:
     """One lysosome under test plus the harness-side observation logs."""
 
-    def __init__(self, cap, thr, ret_min):
-        self.cap, self.thr, self.ret_min = cap, thr, ret_min
-        self.dlog = []       # (id, path, 'ok'|'raise', who) in processing order
+    def __init__(self, cap, thr, ret_min, mode="custom", silent=True, first_id=1):
+        self.cap, self.thr, self.ret_min, self.mode, self.silent = cap, thr, ret_min, mode, silent
+        self.dlog = []       # (id, path, 'ok'|'odd'|'raise'|'raise_anon', who, nested) in processing order
         self.log = []        # module-logger messages
-        self.who = None      # engine C: (thread, op index) currently running, set by the thread bodies
+        self.running = {}    # thread (None = sequential) -> path label of the public call it is executing
+        self.override = None  # path label while a re-entering digester is inside its nested ingest
+        self.nested = 0
         self.toxic_calls = {}
         self.types = {}      # id -> waste type name
         self.created = {}    # id -> created_at
-        self.next_id = 1
-        dig = {WasteType[t]: self._digester for t in NONTOXIC}
+        self.next_id = first_id
+        self.custom = CUSTOM_TYPES[mode]
+        dig = {WasteType[t]: self._digester for t in self.custom}
         self.lys = Lysosome(max_queue_size=cap, auto_digest_threshold=thr, retention_hours=ret_min / 60.0,
-                            digesters=dig, on_toxic=self._on_toxic, silent=True)
+                            digesters=dig or None, on_toxic=self._on_toxic if mode == "custom" else None, silent=silent)
+        if mode == "partial":
+            self.lys.on_toxic = self._on_toxic  # public attribute, set after construction
         sched.install_locks(self.lys)
         self.daemon = None
+
+    def observed(self, i):
+        """Does the harness see item i being processed (its type has a harness digester / toxic callback)?"""
+        t = self.types[i]
+        return self.mode != "builtin" if t == TOXIC else t in self.custom
+
+    def beh_of(self, tname, beh):
+        """Behaviour tag actually carried by an item: meaningless for types the library digests itself."""
+        seen = self.mode != "builtin" if tname == TOXIC else tname in self.custom
+        return beh if seen else "builtin"
 
     def _who(self):
         s = sched.ACTIVE
         return s.current() if s is not None else None
 
-    def _digester(self, w):
+    def _path(self):
+        return self.override or self.running.get(self._who(), "other")
+
+    def _reenter(self):
+        """A digester / toxic callback that hands a new (well-behaved) item to the same lysosome."""
+        j = self.new_id("FAILED_OPERATION")
+        saved = self.override
+        self.override = "emergency" if self.lys.get_queue_status()["size"] >= self.cap else "auto-digest"
+        self.nested += 1
+        try:
+            self.lys.ingest(_RealWaste(WasteType.FAILED_OPERATION, {"id": j, "beh": self.beh_of("FAILED_OPERATION", "empty")},
+                                       "nested", self.created[j]))
+        finally:
+            self.nested -= 1
+            self.override = saved
+
+    def _answer(self, w, toxic):
         i, beh = ident(w)
-        p = _path()
-        if beh == "raise":
-            self.dlog.append((i, p, "raise", self._who()))
-            raise RuntimeError(f"boom#{i}#")
-        self.dlog.append((i, p, "ok", self._who()))
-        return {f"r{i}": i} if beh == "recycle" else {}
+        p, who, nested = self._path(), self._who(), self.nested
+        if toxic:
+            self.toxic_calls[i] = self.toxic_calls.get(i, 0) + 1
+        if beh == "raise_assert":
+            self.dlog.append((i, p, "raise_anon", who, nested))
+            assert False
+        if beh in RAISES:
+            self.dlog.append((i, p, "raise" if beh == "raise" else "raise_anon", who, nested))
+            raise RAISES[beh](i)
+        self.dlog.append((i, p, "odd" if beh == "odd" else "ok", who, nested))
+        if beh == "reenter":
+            self._reenter()
+            beh = "empty"
+        return RETURNS[beh](i)
+
+    def _digester(self, w):
+        return self._answer(w, False)
 
     def _on_toxic(self, w):
-        i, beh = ident(w)
-        p = _path()
-        self.toxic_calls[i] = self.toxic_calls.get(i, 0) + 1
-        if beh == "raise":
-            self.dlog.append((i, p, "raise", self._who()))
-            raise RuntimeError(f"boom#{i}#")
-        self.dlog.append((i, p, "ok", self._who()))
+        return self._answer(w, True)
 
     # -- operations -----------------------------------------------------------------
     def new_id(self, tname, created=None):
@@ -167,26 +218,36 @@ class Box:
         lys = self.lys
         if kind == "ingest":
             i = ids if ids is not None else self.new_id(op[1])
-            content = {"id": i, "beh": op[2]}
+            content = {"id": i, "beh": self.beh_of(op[1], op[2])}
             if op[1] == TOXIC:
                 content["secret"] = f"SECRET{i}"
             return lys.ingest(_RealWaste(WasteType[op[1]], content, "h", self.created[i]))
         if kind == "ingest_error":
             i = ids if ids is not None else self.new_id("FAILED_OPERATION")
-            return lys.ingest_error(ValueError(f"e{i}"), source="h", context={"id": i, "beh": op[1]})
+            return lys.ingest_error(ValueError(f"e{i}"), source="h",
+                                    context={"id": i, "beh": self.beh_of("FAILED_OPERATION", op[1])})
         if kind == "ingest_sensitive":
             i = ids if ids is not None else self.new_id(TOXIC)
-            return lys.ingest_sensitive({"id": i, "beh": op[1], "secret": f"SECRET{i}"}, source="h")
+            return lys.ingest_sensitive({"id": i, "beh": self.beh_of(TOXIC, op[1]), "secret": f"SECRET{i}"}, source="h")
         if kind == "daemon_prune":
+            # op = ("daemon_prune", behaviour, forced): forced -> force=True on a healthy context, else a context
+            # that is critical by the documented rule (fill >= toxicity_threshold)
             i = ids if ids is not None else self.new_id("EXPIRED_CACHE")
             if self.daemon is None:
                 self.daemon = apd.AutophagyDaemon(histone_store=HistoneStore(silent=True), lysosome=lys,
-                                                  summarizer=lambda s: "summary", min_tokens_for_pruning=0, silent=True)
-            return self.daemon.check_and_prune(f"id={i} beh=empty " + "Error: x\n" * 20, 100, force=True)
+                                                  summarizer=lambda s: "summary", min_tokens_for_pruning=0,
+                                                  silent=self.silent)
+            text = f"id={i} beh={self.beh_of('EXPIRED_CACHE', op[1])} " + "Error: x\n" * 20
+            out = self.daemon.check_and_prune(text, 100, force=True) if op[2] else self.daemon.check_and_prune(text, 40)
+            if out[1] is None:
+                raise common.HarnessError(f"daemon did not prune for {op}")
+            return out
         if kind == "digest":
             return lys.digest(op[1]) if op[1] is not None else lys.digest()
         if kind == "autophagy":
             return lys.autophagy()
+        if kind == "clear_bin":
+            return lys.clear_recycling_bin()
         raise AssertionError(op)
 
     def qids(self):
@@ -196,6 +257,34 @@ class Box:
         return now - self.created[i] >= _dt.timedelta(minutes=self.ret_min)
 
 
+def decoy_activity(box):
+    """A second lysosome with the same options in the same process: must start empty whatever the first one has been
+    through, and using it must not touch the first one. Returns violations about the decoy itself."""
+    v = []
+    d = Box(box.cap, box.thr, box.ret_min, box.mode, box.silent, first_id=1001)
+    st0 = d.lys.get_statistics()
+    if (st0["queue_size"], st0["total_ingested"], st0["total_digested"], st0["recycling_bin_size"]) != (0, 0, 0, 0) \
+            or d.lys.get_recycled() or d.lys.get_queue_status()["size"]:
+        v.append(("second-instance-not-fresh", f"a freshly constructed Lysosome reports {st0}, recycled "
+                                               f"{d.lys.get_recycled()!r}"))
+    d.running[None] = "decoy"
+    _Capture.sink = d.log
+    try:
+        d.apply(("ingest", "MISFOLDED_PROTEIN", "recycle"))
+        d.apply(("ingest_sensitive", "ok"))
+        d.apply(("ingest_error", "raise"))
+        d.lys.digest()
+        d.apply(("ingest", "ORPHANED_RESOURCE", "empty"))
+        d.lys.autophagy()
+    finally:
+        _Capture.sink = box.log
+    foreign = [i for i in d.qids() if i < 1001] + [e[0] for e in d.dlog if e[0] < 1001]
+    if foreign or d.lys.get_statistics()["total_ingested"] != 4:
+        v.append(("second-instance-sees-first", f"decoy instance holds/processed items {foreign} of the first instance, "
+                                                f"statistics {d.lys.get_statistics()}"))
+    return v
+
+
 def reported_ids(texts):
     out = set()
     for t in texts:
@@ -203,14 +292,26 @@ def reported_ids(texts):
     return out
 
 
+def anonymous_reports(texts):
+    """Failure reports (DigestResult.errors entries / logger messages) that do not name an item."""
+    return sum(1 for t in texts if not _BOOM.search(str(t)))
+
+
 def account(box, candidates, remaining, dlog, reports, expired_ok, at_capacity, label):
     """Conservation: every id in `candidates` (queued before / ingested by the calls under judgement)
-    is in exactly one class. Returns (violations, classes Counter-like dict)."""
+    is in exactly one class. Returns (violations, classes, tally): tally counts what the counters and the
+    anonymous failure reports have to cover (see `tally_check`)."""
     v = []
-    cls = {"queued": 0, "digested": 0, "error-reported": 0, "emergency-dropped": 0, "expired": 0}
+    cls = {"queued": 0, "digested": 0, "error-reported": 0, "emergency-dropped": 0, "expired": 0,
+           "digested-or-reported": 0, "digested-or-dropped": 0}
+    # ok: digester returned a legal value; odd: returned a truthy non-dict (the library may count it or report it);
+    # builtin: left the queue through a library digester the harness cannot see (must be counted); flex: same at
+    # capacity (counted or emergency-dropped); need_anon: raised without a message outside the emergency path
+    tally = {"ok": 0, "odd": 0, "odd_ne": 0, "builtin": 0, "flex": 0, "need_anon": 0, "anon_path": None,
+             "top_ok": 0, "top_odd": 0}
     inv = {}
-    for i, p, res, _w in dlog:
-        inv.setdefault(i, []).append((p, res))
+    for i, p, res, _w, nested in dlog:
+        inv.setdefault(i, []).append((p, res, nested))
     rem = list(remaining)
     for i in set(rem):
         if rem.count(i) > 1:
@@ -235,12 +336,26 @@ def account(box, candidates, remaining, dlog, reports, expired_ok, at_capacity, 
                 cls["queued"] += 1
             continue
         if runs:
-            p, res = runs[0]
+            p, res, nested = runs[0]
             if res == "ok":
                 cls["digested"] += 1
+                tally["ok"] += 1
+                tally["top_ok"] += not nested
                 if i in reports:
                     v.append((f"error-reported-for-digested-item:{p}", f"item {i} was digested normally and also "
                                                                        f"reported as a digestion error"))
+            elif res == "odd":
+                cls["digested-or-reported"] += 1
+                tally["odd"] += 1
+                tally["odd_ne"] += p != "emergency"
+                tally["top_odd"] += not nested
+            elif res == "raise_anon":
+                if p == "emergency":
+                    cls["emergency-dropped"] += 1
+                else:
+                    cls["error-reported"] += 1  # provided an anonymous report exists: tally_check
+                    tally["need_anon"] += 1
+                    tally["anon_path"] = tally["anon_path"] or p
             elif i in reports:
                 cls["error-reported" if p != "emergency" else "emergency-dropped"] += 1
             elif p == "emergency":
@@ -251,9 +366,16 @@ def account(box, candidates, remaining, dlog, reports, expired_ok, at_capacity, 
                           f"is not counted as digested and the failure appears in no returned DigestResult and in no "
                           f"log warning: the item is in none of the classes"))
             continue
-        # left the queue without being processed
+        # left the queue without being processed by a harness digester
         if i in expired_ok:
             cls["expired"] += 1
+        elif not box.observed(i):
+            if at_capacity:
+                cls["digested-or-dropped"] += 1
+                tally["flex"] += 1
+            else:
+                cls["digested"] += 1
+                tally["builtin"] += 1
         elif toxic:
             v.append((f"sensitive-disposed-without-callback:{label}", f"sensitive item {i} left the queue without "
                                                                       f"reaching on_toxic"))
@@ -262,7 +384,27 @@ def account(box, candidates, remaining, dlog, reports, expired_ok, at_capacity, 
         else:
             v.append((f"item-lost:{label}", f"item {i} ({box.types[i]}) left the queue without being digested, "
                                             f"reported, emergency-dropped or expired"))
-    return v, cls
+    return v, cls, tally
+
+
+def tally_check(tally, d_dig, n_anon, paths, n_raise):
+    """`total_digested` must have grown by the number of items in class 'digested'; items whose digester failed
+    without naming itself need as many anonymous failure reports (weakest matching)."""
+    v = []
+    lo = tally["ok"] + tally["builtin"]
+    hi = lo + tally["odd"] + tally["flex"]
+    if not lo <= d_dig <= hi:
+        v.append((f"digested-count-mismatch:{paths}", f"total_digested grew by {d_dig}, "
+                  f"{lo if lo == hi else f'{lo}..{hi}'} items were digested ({tally['ok']} harness digesters returned "
+                  f"normally, {tally['builtin']} left through library digesters, {n_raise} raised)"))
+    else:
+        need = tally["need_anon"] + max(0, tally["odd_ne"] - (d_dig - lo))
+        if n_anon < need:
+            v.append((f"unreported-digestion-error:{tally['anon_path'] or 'digest'}",
+                      f"{need} items failed to digest (digester raised without a message / returned a non-dict and was "
+                      f"not counted) but only {n_anon} failure reports that name no item appear in the returned "
+                      f"DigestResults and log warnings"))
+    return v
 
 
 # =====================================================================================================
@@ -270,24 +412,58 @@ def account(box, candidates, remaining, dlog, reports, expired_ok, at_capacity, 
 # =====================================================================================================
 
 FULL = ([("ingest", t, b) for t in NONTOXIC for b in ("recycle", "empty", "raise")]
-        + [("ingest", TOXIC, b) for b in ("ok", "raise")]
-        + [("ingest_error", b) for b in ("recycle", "empty", "raise")]
-        + [("ingest_sensitive", b) for b in ("ok", "raise")] + [("daemon_prune",)])
+        + [("ingest", "MISFOLDED_PROTEIN", "none"), ("ingest", "EXPIRED_CACHE", "zero"), ("ingest", "FAILED_OPERATION", "odd"),
+           ("ingest", "ORPHANED_RESOURCE", "raise_empty"), ("ingest", "MISFOLDED_PROTEIN", "raise_assert"),
+           ("ingest", "EXPIRED_CACHE", "raise_stop"), ("ingest", "FAILED_OPERATION", "raise_key"),
+           ("ingest", "ORPHANED_RESOURCE", "reenter")]
+        + [("ingest", TOXIC, b) for b in ("ok", "raise", "raise_empty")]
+        + [("ingest_error", b) for b in ("recycle", "empty", "raise", "raise_empty")]
+        + [("ingest_sensitive", b) for b in ("ok", "raise", "raise_empty", "reenter")]
+        + [("daemon_prune", "empty", True), ("daemon_prune", "raise", False)])
 MID = [("ingest", "MISFOLDED_PROTEIN", "recycle"), ("ingest", "EXPIRED_CACHE", "empty"),
        ("ingest", "ORPHANED_RESOURCE", "raise"), ("ingest_error", "raise"), ("ingest_sensitive", "ok"),
-       ("ingest_sensitive", "raise"), ("daemon_prune",)]
+       ("ingest_sensitive", "raise"), ("daemon_prune", "empty", True),
+       ("ingest", "MISFOLDED_PROTEIN", "none"), ("ingest", "FAILED_OPERATION", "odd"), ("ingest_error", "raise_empty"),
+       ("ingest", "ORPHANED_RESOURCE", "reenter")]
 SMALL = [("ingest", "MISFOLDED_PROTEIN", "recycle"), ("ingest_error", "raise"), ("ingest_sensitive", "ok"),
          ("ingest_sensitive", "raise")]
 TINY = [("ingest", "MISFOLDED_PROTEIN", "recycle"), ("ingest_error", "raise"), ("ingest_sensitive", "ok")]
-OTHER = [("digest", None), ("digest", 0), ("digest", 1), ("digest", 2), ("autophagy",), ("advance", 30), ("advance", 61)]
+OTHER = [("digest", None), ("digest", 0), ("digest", 1), ("digest", 2), ("digest", 9), ("autophagy",), ("advance", 30),
+         ("advance", 61), ("clear_bin",), ("decoy",)]
 LEVELS = {"full": FULL, "mid": MID, "small": SMALL, "tiny": TINY}
+DEPTH = {"quick": 7, "thorough": 10}
+
+
+def _reach(cap, thr):
+    return cap if thr > cap else min(cap, max(0, thr - 1))  # longest queue a correct lysosome can hold
 
 
 def _level(cap, thr, tier):
-    reach = cap if thr > cap else min(cap, max(0, thr - 1))  # longest queue a correct lysosome can hold
+    reach = _reach(cap, thr)
     if tier == "quick":
         return "full" if reach <= 1 else "mid" if reach <= 2 else "small" if reach <= 4 else "tiny"
     return "full" if reach <= 2 else "mid" if reach <= 3 else "small" if reach <= 4 else "tiny"
+
+
+def alphabet(cap, thr, level, mode):
+    """Ingesting operations of a configuration: behaviour tags of item types the library digests itself collapse
+    (the harness has no say there); re-entering digesters only where the capacity path is unreachable."""
+    probe_custom = CUSTOM_TYPES[mode]
+    out = []
+    for op in LEVELS[level]:
+        kind = op[0]
+        tname = op[1] if kind == "ingest" else "FAILED_OPERATION" if kind == "ingest_error" else \
+            TOXIC if kind == "ingest_sensitive" else "EXPIRED_CACHE"
+        seen = mode != "builtin" if tname == TOXIC else tname in probe_custom
+        beh = op[2] if kind == "ingest" else op[1]
+        if not seen:
+            beh = "builtin"
+        if beh == "reenter" and thr > cap and not REENTER_AT_CAPACITY:
+            continue
+        new = (kind, tname, beh) if kind == "ingest" else (kind, beh) + tuple(op[2:])
+        if new not in out:
+            out.append(new)
+    return out
 
 
 class State:
@@ -297,16 +473,42 @@ class State:
 class Model:
     def __init__(self, tier):
         self.tier = tier
+        self._ops = {}
 
     def roots(self):
-        out = []
+        """[max_queue_size, auto_digest_threshold, retention minutes, alphabet level, digester registry, silent].
+        Every configuration runs with the default-like options (custom registry, silent) at the tier's alphabet level
+        and is crossed with the other registries and silent=False at the quick-tier level; configurations that only
+        repeat another one's reachable queue lengths (threshold 3 below a larger capacity) and the long-queue ones get
+        the single combined variant (partial registry, late on_toxic, silent=False), the latter on the smallest alphabet."""
+        base = []
         for cap in (2, 3, 4, 8):
             for thr in (1, 2, 3, 8):
-                out.append([cap, thr, 60, _level(cap, thr, self.tier)])
-        out.append([2, 3, 30, "mid"])
-        out.append([3, 2, 30, "mid"])
+                base.append((cap, thr, 60))
+        base += [(2, 3, 30), (3, 2, 30), (2, 3, 0), (3, 2, 0)]
         if self.tier == "thorough":
-            out += [[5, 4, 60, "small"], [4, 5, 60, "small"], [6, 8, 60, "tiny"]]
+            base += [(5, 4, 60), (4, 5, 60), (6, 8, 60)]
+        depth = DEPTH[self.tier]
+
+        def lvl(cap, thr, ret, tier):
+            if (cap, thr) in ((5, 4), (4, 5)):
+                return "small"
+            level = _level(cap, thr, tier)
+            return "mid" if ret != 60 and level != "full" else level
+
+        out = []
+        for cap, thr, ret in base:
+            reach = _reach(cap, thr)
+            out.append([cap, thr, ret, lvl(cap, thr, ret, self.tier), "custom", True])
+            if reach >= depth:
+                continue  # no trigger is reachable within the depth: nothing for the options to influence
+            if reach >= 4:
+                out.append([cap, thr, ret, "tiny", "partial", False])
+            elif thr == 3 and cap > 3:
+                out.append([cap, thr, ret, lvl(cap, thr, ret, "quick"), "partial", False])
+            else:
+                for mode, silent in (("custom", False), ("partial", False), ("builtin", True), ("builtin", False)):
+                    out.append([cap, thr, ret, lvl(cap, thr, ret, "quick"), mode, silent])
         return out
 
     def build(self, root):
@@ -314,7 +516,7 @@ class Model:
         st.cfg = tuple(root)
         st.clock = vclock.VClock()
         vclock.use(st.clock)
-        st.box = Box(root[0], root[1], root[2])
+        st.box = Box(root[0], root[1], root[2], root[4], root[5])
         st.last = ("init",)
         return st
 
@@ -323,7 +525,7 @@ class Model:
         c.cfg = st.cfg
         c.clock = vclock.VClock(start=st.clock.now())
         vclock.use(c.clock)
-        b, o = Box(st.cfg[0], st.cfg[1], st.cfg[2]), st.box
+        b, o = Box(st.cfg[0], st.cfg[1], st.cfg[2], st.cfg[4], st.cfg[5]), st.box
         b.lys._queue = list(o.lys._queue)
         b.lys._total_ingested = o.lys._total_ingested
         b.lys._total_digested = o.lys._total_digested
@@ -339,7 +541,10 @@ class Model:
         return c
 
     def ops(self, st):
-        return LEVELS[st.cfg[3]] + OTHER
+        key = st.cfg
+        if key not in self._ops:
+            self._ops[key] = alphabet(key[0], key[1], key[3], key[4]) + OTHER
+        return self._ops[key]
 
     def canon(self, st):
         now = st.clock.now()
@@ -367,6 +572,10 @@ class Model:
         cap, thr = box.cap, box.thr
         now = st.clock.now()
         qb = box.qids()
+        foreign = [i for i in qb if i not in box.types]
+        if foreign:
+            return [("queue-foreign-item:before-call", f"items {foreign} are queued in this lysosome but were never ingested "
+                                                       f"into it (state shared with another instance?)")]
         sb = lys.get_statistics()
         del box.dlog[:]
         del box.log[:]
@@ -374,8 +583,15 @@ class Model:
         nid_before = box.next_id
         ingesting = kind in INGEST_KINDS
         at_capacity = ingesting and len(qb) >= cap
+        # the role of whatever gets processed during this call follows from the call itself
+        box.running[None] = ("emergency" if at_capacity else "auto-digest") if ingesting else kind
+        v = []
         try:
-            ret = box.apply(op)
+            if kind == "decoy":
+                ret = None
+                v += decoy_activity(box)
+            else:
+                ret = box.apply(op)
         except sched.HangDetected as e:
             if ingesting:
                 where = "auto-digest-threshold" if len(qb) + 1 >= thr and not at_capacity else \
@@ -385,12 +601,13 @@ class Model:
                 key = f"hang:{kind}"
             return [(key, f"{kind}{tuple(op[1:])} with {len(qb)} queued (max_queue_size={cap}, auto_digest_threshold={thr}) "
                           f"would never return: {e}")]
+        except common.HarnessError:
+            raise
         except Exception as e:  # noqa: BLE001
             return [(f"raises:{'ingest' if ingesting else kind}:{type(e).__name__}",
                      f"{kind}{tuple(op[1:])} raised {type(e).__name__}: {e}")]
         finally:
             _Capture.sink = None
-        v = []
         new = list(range(nid_before, box.next_id))
         qa = box.qids()
         sa = lys.get_statistics()
@@ -400,16 +617,17 @@ class Model:
             v.append((f"queue-over-capacity:{'ingest' if ingesting else kind}", f"{max(sizes)} items queued after "
                       f"{kind}{tuple(op[1:])}, max_queue_size={cap}"))
         # conservation
-        reports = reported_ids(box.log)
+        texts = list(box.log)
         if isinstance(ret, DigestResult):
-            reports |= reported_ids(ret.errors)
+            texts += list(ret.errors)
+        reports = reported_ids(texts)
         candidates = set(qb) | set(new)
         expired_ok = {i for i in candidates if kind == "autophagy" and box.expired(i, now)}
         label = "ingest" if ingesting else kind
-        av, cls = account(box, candidates, qa, box.dlog, reports, expired_ok, at_capacity, label)
+        av, cls, tally = account(box, candidates, qa, box.dlog, reports, expired_ok, at_capacity, label)
         v += av
         n_ok = sum(1 for e in box.dlog if e[2] == "ok")
-        n_raise = sum(1 for e in box.dlog if e[2] == "raise")
+        n_raise = sum(1 for e in box.dlog if e[2] in ("raise", "raise_anon"))
         if kind == "autophagy":
             gone = [i for i in qb if i not in qa]
             fresh_gone = [i for i in gone if i not in expired_ok]
@@ -422,14 +640,18 @@ class Model:
         if d_ing != len(new):
             v.append((f"ingested-count-mismatch:{label}", f"total_ingested grew by {d_ing}, {len(new)} items ingested"))
         d_dig = sa["total_digested"] - sb["total_digested"]
-        if d_dig != n_ok:
-            paths = sorted({e[1] for e in box.dlog}) or ["none"]
-            v.append((f"digested-count-mismatch:{'+'.join(paths)}", f"total_digested grew by {d_dig}, {n_ok} digesters "
-                      f"returned normally ({n_raise} raised)"))
+        if not av:
+            v += tally_check(tally, d_dig, anonymous_reports(texts),
+                             "+".join(sorted({e[1] for e in box.dlog}) or ["none"]), n_raise)
         if isinstance(ret, DigestResult):
-            if ret.disposed != n_ok:
-                v.append(("disposed-count-mismatch", f"DigestResult.disposed={ret.disposed}, {n_ok} digesters returned "
-                                                     f"normally ({n_raise} raised)"))
+            # what this call itself disposed of: items processed by nested calls of re-entering digesters excluded,
+            # items the library digested itself (no harness hook) may have gone either way
+            lo = tally["top_ok"]
+            hi = lo + tally["top_odd"] + tally["builtin"] + tally["flex"]
+            if not (lo <= ret.disposed <= hi) or (not any(e[4] for e in box.dlog) and ret.disposed != d_dig):
+                v.append(("disposed-count-mismatch", f"DigestResult.disposed={ret.disposed}, total_digested grew by {d_dig}, "
+                                                     f"{n_ok} harness digesters returned normally ({n_raise} raised), "
+                                                     f"{tally['builtin']} items left through library digesters"))
         # sensitive data
         if "SECRET" in repr(lys.get_recycled()):
             v.append(("sensitive-in-recycling-bin", f"get_recycled() = {lys.get_recycled()!r}"))
@@ -442,9 +664,12 @@ class Model:
 
 
 def _selfcheck(model):
-    hist = (("ingest", "MISFOLDED_PROTEIN", "recycle"), ("advance", 30), ("ingest_sensitive", "ok"), ("digest", 1),
-            ("ingest_error", "raise"), ("advance", 61), ("autophagy",), ("ingest_sensitive", "raise"))
-    for root in ([8, 8, 60, "tiny"], [3, 8, 60, "mid"], [2, 8, 60, "full"]):
+    hist0 = (("ingest", "MISFOLDED_PROTEIN", "recycle"), ("advance", 30), ("ingest_sensitive", "ok"), ("digest", 1),
+             ("ingest_error", "raise"), ("clear_bin",), ("advance", 61), ("autophagy",), ("ingest_sensitive", "raise"),
+             ("decoy",))
+    for root in ([8, 8, 60, "tiny", "custom", True], [3, 8, 60, "mid", "partial", False], [2, 8, 60, "full", "builtin", True],
+                 [3, 2, 0, "full", "custom", False]):
+        hist = hist0  # behaviour tags of item types without a harness digester are ignored by Box.apply
         for n in range(len(hist) + 1):
             a = model.build(root)
             for op in hist[:n]:
@@ -473,18 +698,19 @@ D_ONE = ("digest", 1)
 AUTO = ("autophagy",)
 SIGMA = [I_OK, I_BAD, I_SEC, D_ALL, D_ONE, AUTO]
 
-# (cap, thr, preload [(op, 'old'|'fresh')...], thread programs)
+# (cap, thr, preload [(op, 'old'|'fresh')...], thread programs, silent). silent=False only adds scheduling points (the
+# print branches) to the same code, so those harnesses explore a superset of the silent interleavings.
 CURATED = {
-    "T1-ingest3-vs-digest": (3, 8, [(I_OK, "fresh")], [[I_OK, I_BAD, I_SEC], [D_ALL, D_ONE, D_ALL]]),
-    "T2-ingest3-vs-ingest3-capacity": (3, 8, [(I_SEC, "fresh"), (I_BAD, "fresh")], [[I_OK, I_SEC, I_BAD], [I_BAD, I_OK, I_SEC]]),
-    "T3-threshold-ingests": (3, 2, [(I_BAD, "fresh")], [[I_OK, I_SEC], [I_BAD, I_OK]]),
-    "T4-threshold-vs-digest-autophagy": (3, 2, [(I_OK, "old")], [[I_SEC, I_BAD, I_OK], [AUTO, D_ALL]]),
-    "T5-autophagy-vs-digest-vs-ingest": (4, 8, [(I_OK, "old"), (I_SEC, "old"), (I_BAD, "fresh")], [[AUTO, I_OK, AUTO], [D_ONE, D_ALL]]),
-    "T6-capacity-vs-digest": (2, 8, [(I_SEC, "fresh"), (I_BAD, "fresh")], [[I_OK, I_OK, I_SEC], [D_ONE, D_ALL, AUTO]]),
-    "T7-threshold3": (4, 3, [(I_BAD, "fresh"), (I_SEC, "fresh")], [[I_OK, I_BAD, I_SEC], [I_SEC, D_ONE]]),
+    "T1-ingest3-vs-digest": (3, 8, [(I_OK, "fresh")], [[I_OK, I_BAD, I_SEC], [D_ALL, D_ONE, D_ALL]], True),
+    "T2-ingest3-vs-ingest3-capacity": (3, 8, [(I_SEC, "fresh"), (I_BAD, "fresh")], [[I_OK, I_SEC, I_BAD], [I_BAD, I_OK, I_SEC]], False),
+    "T3-threshold-ingests": (3, 2, [(I_BAD, "fresh")], [[I_OK, I_SEC], [I_BAD, I_OK]], False),
+    "T4-threshold-vs-digest-autophagy": (3, 2, [(I_OK, "old")], [[I_SEC, I_BAD, I_OK], [AUTO, D_ALL]], True),
+    "T5-autophagy-vs-digest-vs-ingest": (4, 8, [(I_OK, "old"), (I_SEC, "old"), (I_BAD, "fresh")], [[AUTO, I_OK, AUTO], [D_ONE, D_ALL]], False),
+    "T6-capacity-vs-digest": (2, 8, [(I_SEC, "fresh"), (I_BAD, "fresh")], [[I_OK, I_OK, I_SEC], [D_ONE, D_ALL, AUTO]], False),
+    "T7-threshold3": (4, 3, [(I_BAD, "fresh"), (I_SEC, "fresh")], [[I_OK, I_BAD, I_SEC], [I_SEC, D_ONE]], True),
 }
 QUICK_CURATED = ["T1-ingest3-vs-digest", "T3-threshold-ingests", "T4-threshold-vs-digest-autophagy", "T6-capacity-vs-digest"]
-PAIR_CFG = {"P38": (3, 8, [(I_SEC, "old"), (I_BAD, "fresh"), (I_OK, "fresh")]), "P32": (3, 2, [(I_BAD, "fresh")])}
+PAIR_CFG = {"P38": (3, 8, [(I_SEC, "old"), (I_BAD, "fresh"), (I_OK, "fresh")], True), "P32": (3, 2, [(I_BAD, "fresh")], False)}
 
 
 def systematic(tier):
@@ -493,10 +719,10 @@ def systematic(tier):
     if tier == "thorough":
         progs += [[a, b] for a in SIGMA for b in SIGMA]
     out = {}
-    for cname, (cap, thr, pre) in PAIR_CFG.items():
+    for cname, (cap, thr, pre, silent) in PAIR_CFG.items():
         for x in range(len(progs)):
             for y in range(x, len(progs)):
-                out[f"{cname}:{x}x{y}"] = (cap, thr, pre, [progs[x], progs[y]])
+                out[f"{cname}:{x}x{y}"] = (cap, thr, pre, [progs[x], progs[y]], silent)
     return out
 
 
@@ -511,13 +737,16 @@ def harness_spec(name, tier_hint=None):
 
 
 def make_factory(spec):
-    cap, thr, pre, threads = spec
+    cap, thr, pre, threads, silent = spec
+    # which mechanism an ingesting call can trigger follows from the configuration (capacity is only reachable when the
+    # auto-digest threshold lies above it), the role of a digest / autophagy call from the call itself
+    ingest_label = "emergency" if thr > cap else "auto-digest"
 
     def make():
         _setup()
         clock = vclock.VClock()
         vclock.use(clock)
-        box = Box(cap, thr, 60)
+        box = Box(cap, thr, 60, "custom", silent)
         log = []
         now = clock.now()
         # pre-load (sequentially, below every trigger) directly through ingest()
@@ -554,6 +783,7 @@ def make_factory(spec):
             def run():
                 for k, op in enumerate(threads[tid]):
                     cur[tid] = k
+                    box.running[tid] = ingest_label if op[0] in INGEST_KINDS else op[0]
                     r = box.apply(op, ids=plan[tid][k])
                     if isinstance(r, DigestResult):
                         r = ("DigestResult", r.disposed, tuple(r.errors), r.success)
@@ -577,7 +807,7 @@ def make_factory(spec):
 
 
 def judge_factory(name, spec):
-    cap, thr, pre, threads = spec
+    cap, thr, pre, threads, _silent = spec
 
     def judge(ex, out):
         v = []
@@ -621,16 +851,17 @@ def judge_factory(name, spec):
         processed = {e[0] for e in box.dlog}
         silently_gone = [i for i in ingested if i not in qa and i not in processed]
         expired_ok = set(x for x in silently_gone if x in old)
-        av, cls = account(box, ingested, qa, box.dlog, reports, expired_ok, False, "schedule")
+        av, cls, tally = account(box, ingested, qa, box.dlog, reports, expired_ok, False, "schedule")
         v += [(k, f"{name}: {w}") for k, w in av]
         if removed_by_autophagy != len(expired_ok) and not av:
             v.append(("autophagy-count-mismatch", f"{name}: autophagy calls returned {removed_by_autophagy} in total, "
                                                   f"{len(expired_ok)} expired items left the queue unprocessed"))
         st = lys.get_statistics()
-        n_ok = sum(1 for e in box.dlog if e[2] == "ok")
-        if st["total_digested"] != n_ok:
-            v.append(("digested-count-mismatch:schedule", f"{name}: total_digested={st['total_digested']}, {n_ok} digesters "
-                                                          f"returned normally"))
+        if not av:
+            texts = list(out["log"]) + [t for row in out["rets"] for r in row
+                                        if isinstance(r, tuple) and r and r[0] == "DigestResult" for t in r[2]]
+            v += [(k, f"{name}: {w}") for k, w in tally_check(tally, st["total_digested"], anonymous_reports(texts), "schedule",
+                                                            sum(1 for e in box.dlog if e[2] != "ok"))]
         if st["total_ingested"] != len(ingested):
             v.append(("ingested-count-mismatch:schedule", f"{name}: total_ingested={st['total_ingested']}, "
                                                           f"{len(ingested)} items ingested"))
@@ -782,8 +1013,26 @@ def run(ctx):
                                       for k, val in vars(probe.lys).items() if isinstance(val, sched.CoopLock)]
     if not ctx.coverage["locks_replaced"]:
         raise common.HarnessError("Lysosome has no threading.Lock/RLock attribute to replace")
+    # two instances in one process must not see each other; the clone/replay self-test below presumes that much
+    # (every explored state is a fresh instance: with shared state neither the self-test nor the exploration mean anything)
+    shared = 0
+    for root in ([3, 8, 60, "mid", "custom", True], [3, 2, 60, "full", "partial", False]):
+        for hist, op in (([("ingest", "MISFOLDED_PROTEIN", "recycle"), ("ingest_sensitive", "ok"), ("digest", 1)], ("decoy",)),
+                         ([("ingest_error", "recycle"), ("ingest_sensitive", "ok"), ("decoy",)], ("digest", None)),
+                         ([("ingest_sensitive", "ok"), ("decoy",)], ("ingest", "ORPHANED_RESOURCE", "empty"))):
+            probe_case = {"root": root, "hist": hist, "op": op}
+            for k, w in explore.replay_case(model, probe_case):
+                shared += 1
+                ctx.report(k, f"after history {hist} op {op}: {w}", probe_case)
+    if shared:
+        ctx.coverage.update(states=1, transitions=6, traces_validated_against_impl=6, evaluations=6, distinct_nontrivial=1,
+                            rule="instance-isolation probe only: a second Lysosome in the same process disturbed the first "
+                                 "one, the exploration (one fresh instance per state) was not started",
+                            exhaustive=False, caps_hit=["stopped after the instance-isolation probe"])
+        ctx.outcomes.add(("isolation-probe", "violated"))
+        return
     _selfcheck(model)
-    depth = 7 if ctx.tier == "quick" else 10
+    depth = DEPTH[ctx.tier]
     res = explore.explore(model, ctx, depth, validate_canon=200 if ctx.tier == "thorough" else 0)
     n_seq_outcomes = len(ctx.outcomes)
 
@@ -824,7 +1073,11 @@ def run(ctx):
         evaluations=res["transitions"] + total_exec,
         distinct_nontrivial=res["states"] + len(sched_outcomes),
         rule="A: BFS over sequential histories of the real Lysosome per configuration (max_queue_size, "
-             "auto_digest_threshold, retention, item alphabet level); canonical state = queue as a sequence of (waste "
+             "auto_digest_threshold, retention incl. 0, item alphabet level, digester registry custom/partial/builtin, "
+             "silent); operations = ingest of each type x digester answer (dict, {}, None, 0, non-dict, raise with/"
+             "without message, 4 exception classes, re-entering ingest), ingest_error, ingest_sensitive x on_toxic "
+             "answer, daemon prune (forced / critical), digest(None/0/1/2/9), autophagy, clock advance, "
+             "clear_recycling_bin, activity on a second instance; canonical state = queue as a sequence of (waste "
              "type, digester behaviour, capped age); distinct/non-trivial = distinct canonical state. C: every schedule "
              "of each 2-thread harness up to the preemption bound, scheduling point = every source line of lysosome.py; "
              "distinct = distinct (harness, outcome) pair. transitions = A transitions + C schedules",
@@ -843,14 +1096,27 @@ def run(ctx):
     ctx.note("reading: an expired sensitive item is disposed of by autophagy without the toxic callback (by design, not judged)")
     ctx.note("digest(max_items=0) digests everything (falsy test) and an auto-digest at threshold 1 therefore empties the "
              "queue: accounted for, not judged")
+    ctx.note("reading: a digester that returns a truthy non-dict is either counted as digested or reported as a digestion "
+             "error (the library reports it); a failure report that names no item (exception without a message) is matched "
+             "by count: as many anonymous reports as anonymous failures outside the emergency path")
+    ctx.note("reading: items of types without a harness digester (registry 'partial'/'builtin') are observed through the "
+             "counters only: leaving the queue outside autophagy must raise total_digested (at capacity: may)")
+    if not REENTER_AT_CAPACITY:
+        ctx.note("not explored: a digester / on_toxic that re-enters ingest() while the queue is at capacity (outside the "
+                 "property's quantifier; on the pinned tree _emergency_digest then recurses on the still-queued oldest half "
+                 "until RecursionError: the same sensitive item reaches on_toxic hundreds of times). Re-entering digesters "
+                 "are explored on the digest and auto-digest paths (auto_digest_threshold <= max_queue_size)")
     ctx.assumptions += [
         "CoopLock has the mutual-exclusion semantics of threading.Lock/RLock; a sequential self re-acquire of a "
         "non-re-entrant lock never returns (HangDetected); under the scheduler it is a detected deadlock",
         "interleavings are explored at source-line granularity of lysosome.py (CPython 3.12 switches threads only at "
         "calls and backward jumps, so a single `x += 1` line is atomic)",
         "Waste objects built inside the library are stamped with the virtual clock (module global Waste rebound)",
-        "digesters for the four non-sensitive waste types are harness functions whose behaviour is fixed per item at "
-        "ingestion; sensitive items go through the library's own _digest_toxic and the harness on_toxic",
+        "harness digesters (all four non-sensitive waste types, or two of them in registry 'partial') behave as fixed "
+        "per item at ingestion; sensitive items go through the library's own _digest_toxic and the harness on_toxic",
+        "console output of silent=False runs is swallowed by a module-level print in lysosome/autophagy_daemon",
+        "the role of a processed item (digest / auto-digest / emergency) is derived from the public call under judgement "
+        "(kind; ingest at capacity or not; in schedules: whether the configuration can reach capacity)",
     ]
 
 
